@@ -8,7 +8,8 @@ RULE = ("trees, reconvergent cones (diamonds, nested diamonds), multiple outputs
         "inputs, every 2-input <=3-gate circuit over {and,or,xor,not} (sampled), seeded random lint-clean "
         "blackbox-free acyclic circuits up to 12 gates, plus the bundled c17; single-output ones also through "
         "construct_supercircuit=True (every supergate blackbox refilled, equivalence by exhaustive simulation); "
-        "non-trivial = circuit has reconvergent fan-out or more than one supergate is returned")
+        "non-trivial = circuit has reconvergent fan-out or more than one supergate is returned"
+        "; plus: a constant feeding two or three gates (a constant as fan-out stem)")
 BOUND = "circuits <= 18 nodes, <= 6 inputs; 4/16 hash seeds"
 
 
